@@ -25,6 +25,10 @@ def make_config(rng, profile, tier):
     cfg['names'] = rng.sample(['asc', 'b_time', 'b_cost', 'beta', 'BETA', 'b', 'b1', 'b10', 'mu', 'a_b'], cfg['K'])
     cfg['N'] = rng.choice([1, 2, 3, 5, 7, 12, 20, 40]) if rng.random() < 0.6 else rng.randrange(1, 41)
     cfg['threads'] = rng.choice([1, 2, 3, 0])
+    cfg['panel'] = (profile != 'est') and rng.random() < 0.15
+    if cfg['panel']:
+        cfg['weight'] = None
+        cfg['N'] = max(cfg['N'], 3)
     if profile == 'est':
         cfg['N'] = max(cfg['N'], 6)
         cfg['weight'] = rng.choice([None, None, 'col'])
@@ -70,10 +74,12 @@ def make_ops(rng, cfg, profile, tier):
                                              rng.choice(tchoices)]})
         elif r < 0.82:
             ops.append({'op': 'PER_OBS', 'a': [rng.randrange(1 << 16) % 5]})
-        elif r < 0.87:
+        elif r < 0.85:
             ops.append({'op': 'SET_THREADS', 'a': [rng.randrange(64), rng.choice(tchoices)]})
+        elif r < 0.88:
+            ops.append({'op': 'NEGLL', 'a': [rng.randrange(64), rng.randrange(1 << 16) % 5]})
         else:
-            ops.append({'op': rng.choice(['H_NULL', 'H_EVALC', 'H_QUICK', 'H_CHANGE_INIT', 'H_ESTBOOT']),
+            ops.append({'op': rng.choice(['H_NULL', 'H_EVALC', 'H_QUICK', 'H_CHANGE_INIT', 'H_ESTBOOT', 'H_ESTBOOT_FAIL']),
                         'a': [rng.randrange(64), rng.randrange(1 << 16)]})
     return ops
 
@@ -139,10 +145,17 @@ class Session:
             random.Random(permseed).shuffle(idx)
             t = t.iloc[idx].reset_index(drop=True)
         ll, w, betas = specs.build_formulas(cfg)
+        if self.cfg.get('panel'):
+            import biogeme.expressions as ex
+            t = t.sort_values('grp', kind='stable').reset_index(drop=True)
+            ll = ex.log(ex.PanelLikelihoodTrajectory(ex.exp(ll)))
         forms = {'log_like': ll}
         if w is not None:
             forms['weight'] = w
         d = db.Database('d', t)
+        if self.cfg.get('panel'):
+            d.panel('grp')
+            self.ctx.probe('panel data (sample size = individuals)')
         b = bio.BIOGEME(d, forms if (dictform or w is not None) else ll, parameters=self._params(threads, save))
         b.modelName = 'm'
         rec = {'b': b, 'T': threads, 'perm': permseed, 'table': t, 'betas': betas, 'cfg': cfg}
@@ -255,18 +268,21 @@ class Session:
             self.memo[key] = (self.np.array(val, dtype=float, copy=True), what)
 
     # -- evaluation helpers -------------------------------------------------------------
+    def size(self, table):
+        return len(set(table['grp'].to_list())) if self.cfg.get('panel') else len(table)
+
     def eval_ll(self, rec, x, scaled):
         b = rec['b']
         v = float(b.calculate_likelihood(self.vec(x), scaled=scaled))
         want, _, _ = self.ref_ll(x, rec['table'])
-        n = len(rec['table'])
+        n = self.size(rec['table'])
         self._cmp(f'log likelihood (T={rec["T"]}, scaled={scaled})', v, want / n if scaled else want)
         return v
 
     def eval_lld(self, rec, x, scaled, hessian, bhhh, xseed):
         b = rec['b']
         out = b.calculate_likelihood_and_derivatives(self.vec(x), scaled=scaled, hessian=hessian, bhhh=bhhh)
-        n = len(rec['table'])
+        n = self.size(rec['table'])
         want, _, _ = self.ref_ll(x, rec['table'])
         f = float(out.function) * (n if scaled else 1)
         self._cmp(f'log likelihood with derivatives (T={rec["T"]}, scaled={scaled})', f, want)
@@ -302,7 +318,12 @@ class Session:
         kind, a = op['op'], op['a']
         ctx.count('op:' + kind)
         np = self.np
+        if self.cfg.get('panel') and kind in ('PARTS', 'PER_OBS', 'SIM', 'H_NULL'):
+            # cross-sectional comparisons: replaced by a plain evaluation on panel data
+            kind, a = 'LLD', [a[0] if kind != 'PARTS' else 0, (a[1] if len(a) > 1 else a[0]) % 5, False, True, True]
         if kind == 'MAKE':
+            if self.cfg.get('panel'):
+                a = [a[0], a[1], False]     # individuals must stay contiguous: no row permutation
             rec = self.make_object(a[0], a[1] if a[2] else None)
             ctx.log(kind, a[0], a[1] if a[2] else None)
         elif kind == 'FRESH':
@@ -373,6 +394,26 @@ class Session:
             self._memo(('x', a[0], 'h'), 'hessian[sum of weighted per-observation Hessians]', h, oracle='I04.agg')
             self._memo(('x', a[0], 'b'), 'bhhh[sum of weighted outer products]', bh, oracle='I04.agg')
             ctx.log(kind, a[0])
+        elif kind == 'NEGLL':
+            # the function handed to the optimisers: minus the likelihood, minus its derivatives
+            from biogeme.negative_likelihood import NegativeLikelihood
+            rec = self.objects[a[0] % len(self.objects)]
+            b = rec['b']
+            x = self.point(a[1])
+            nl = NegativeLikelihood(dimension=len(self.names), like=b.calculate_likelihood,
+                                    like_derivatives=b.calculate_likelihood_and_derivatives,
+                                    parameters={'tolerance': 1e-6, 'steptol': 1e-6})
+            nl.set_variables(self.vec(x))
+            want, _, _ = self.ref_ll(x, rec['table'])
+            self._cmp('function handed to the optimiser vs minus the log likelihood', nl.f(), -want, oracle='I04.neg')
+            fg = nl.f_g()
+            fgh = nl.f_g_h()
+            out = b.calculate_likelihood_and_derivatives(self.vec(x), scaled=False, hessian=True, bhhh=False)
+            self._cmp('f_g: value', fg.function, -want, oracle='I04.neg')
+            self._cmp('f_g: gradient vs minus the gradient of the likelihood', fg.gradient, -np.asarray(out.gradient), oracle='I04.neg')
+            self._cmp('f_g_h: gradient', fgh.gradient, -np.asarray(out.gradient), oracle='I04.neg')
+            self._cmp('f_g_h: Hessian vs minus the Hessian of the likelihood', fgh.hessian, -np.asarray(out.hessian), oracle='I04.neg')
+            ctx.log(kind, rec['T'])
         elif kind == 'SET_THREADS':
             rec = self.objects[a[0] % len(self.objects)]
             rec['b'].number_of_threads = a[1]
@@ -397,6 +438,32 @@ class Session:
                 b.quick_estimate()
             elif kind == 'H_CHANGE_INIT':
                 b.change_init_values(self.point(a[1]))
+            elif kind == 'H_ESTBOOT_FAIL':
+                if self.cfg['K'] >= 2:
+                    # fault injection: the optimiser fails inside the bootstrap loop (k-th call); the caller
+                    # catches the error and goes on using the object
+                    import biogeme.optimization as opt
+                    calls = {'n': 0}
+                    real = opt.algorithms['simple_bounds']
+                    fail_at = 2 + a[1] % 2
+
+                    def flaky(**kw):
+                        calls['n'] += 1
+                        if calls['n'] == fail_at:
+                            raise RuntimeError('injected optimiser failure')
+                        return real(**kw)
+                    opt.algorithms['flaky'] = flaky
+                    b.biogeme_parameters.set_value('optimization_algorithm', 'flaky')
+                    b.biogeme_parameters.set_value('bootstrap_samples', 3)
+                    try:
+                        b.estimate(run_bootstrap=True)
+                    except RuntimeError as e:
+                        if 'injected' not in str(e):
+                            raise
+                        ctx.count('fault:optimiser-failure-in-bootstrap')
+                    finally:
+                        opt.algorithms.pop('flaky', None)
+                        b.biogeme_parameters.set_value('optimization_algorithm', 'simple_bounds')
             elif kind == 'H_ESTBOOT':
                 if self.cfg['K'] >= 2:
                     b.biogeme_parameters.set_value('optimization_algorithm', 'simple_bounds')
